@@ -44,8 +44,11 @@ Record config := Config {
   cf_dr : bool;           (* replication-mode = dr-auto-sync (false: majority) *)
   cf_label : string;      (* dr-auto-sync.label-key *)
   cf_p : Z; cf_d : Z;     (* primary-replicas, dr-replicas *)
-  cf_async_ok : bool      (* drCheckAsyncTimeout: wait-async-timeout is 0 (true) or far in the future (false) *)
+  cf_timeout : Z          (* dr-auto-sync.wait-async-timeout in ms (0: switch to async without waiting) *)
 }.
+(* the clock data drCheckAsyncTimeout reads: the current time, the time the ModeManager was created (initTime) and, per PD
+   member, the last time it confirmed the DR_STATE file (drMemberWaitAsyncTime); all in ms *)
+Record clock := Clock { c_now : Z; c_init : Z; c_members : list (Z * Z) }.
 
 Record status := Status { st_state : dstate; st_id : Z }.
 
@@ -61,6 +64,7 @@ Record state := State {
   regions : list region;          (* region cache, ascending start key, non-overlapping (the harness replaces whole layouts) *)
   stores : list store;
   bsz : nat;                      (* regionScanBatchSize (1024 in the source; the harness lowers the package variable) *)
+  clk : clock;
   (* ghost *)
   chain : list region;            (* regions the cursor has passed in this recovery, newest first *)
   used : list Z                   (* every state id ever put into a status, newest first *)
@@ -94,7 +98,7 @@ Definition set_status (s : state) (sv st : option status) (fl : list status) (ni
            (published : bool) (ch : list region) (us : list Z) : state :=
   (* `m.drAutoSync = dr` replaces the whole struct: the progress figures shown over HTTP restart at 0 *)
   State (cfg s) sv st fl nid k c (if published then 0 else tot s) (if published then 0 else synced s) (dr_total s)
-        (regions s) (stores s) (bsz s) ch us.
+        (regions s) (stores s) (bsz s) (clk s) ch us.
 
 (* returns the new state, whether it was published, and the number of saves consumed *)
 Definition switch (s : state) (target : dstate) (f : fault) (idx : nat) : state * bool :=
@@ -152,13 +156,19 @@ Fixpoint progress_loop (fuel : nat) (s : state) : state :=
             let '(k, c, passed, hit) := walk (cur_id s) (cur_key s) (cur_cnt s) (chain s) batch in
             let s1 := State (cfg s) (served s) (stored s) (files s) (next_id s) k c (tot s) (synced s)
                             (if hit then Z.of_nat (length (regions s)) else dr_total s)
-                            (regions s) (stores s) (bsz s) passed (used s) in
+                            (regions s) (stores s) (bsz s) (clk s) passed (used s) in
             if hit then s1 else progress_loop n s1
         end
       else s
   end.
 Definition update_progress (s : state) : state := progress_loop (S (length (regions s))) s.
 Definition finished (s : state) : bool := key_empty (cur_key s) && (cur_cnt s >? 0).
+
+(* drCheckAsyncTimeout: no timeout configured, or every member's confirmation AND the manager's creation are older than it *)
+Definition async_ok_at (c : config) (k : clock) : bool :=
+  (cf_timeout c =? 0)
+  || (forallb (fun m : Z * Z => c_now k - snd m >? cf_timeout c) (c_members k) && (c_now k - c_init k >? cf_timeout c)).
+Definition async_ok (s : state) : bool := async_ok_at (cfg s) (clk s).
 
 (* ---------- tickDR ---------- *)
 Definition tick (s : state) (f : fault) : state :=
@@ -169,7 +179,7 @@ Definition tick (s : state) (f : fault) : state :=
   let hm := has_majority (cfg s) dp dd in
   (* 1: to async *)
   let '(s1, n1) :=
-    if negb cs && hm && negb (in_state s Async) && cf_async_ok (cfg s)
+    if negb cs && hm && negb (in_state s Async) && async_ok s
     then (fst (switch s Async f 0), 1%nat) else (s, 0%nat) in
   (* 2: async -> sync_recover *)
   let '(s2, n2) :=
@@ -179,13 +189,13 @@ Definition tick (s : state) (f : fault) : state :=
     let s3 := update_progress s2 in
     if finished s3 then fst (switch s3 Sync f n2)
     else State (cfg s3) (served s3) (stored s3) (files s3) (next_id s3) (cur_key s3) (cur_cnt s3)
-               (dr_total s3) (cur_cnt s3) (dr_total s3) (regions s3) (stores s3) (bsz s3) (chain s3) (used s3)
+               (dr_total s3) (cur_cnt s3) (dr_total s3) (regions s3) (stores s3) (bsz s3) (clk s3) (chain s3) (used s3)
   else s2.
 
 (* ---------- UpdateConfig ---------- *)
 Definition set_cfg (s : state) (c : config) : state :=
   State c (served s) (stored s) (files s) (next_id s) (cur_key s) (cur_cnt s) (tot s) (synced s) (dr_total s)
-        (regions s) (stores s) (bsz s) (chain s) (used s).
+        (regions s) (stores s) (bsz s) (clk s) (chain s) (used s).
 Definition update_config (s : state) (c : config) (f : fault) : state * bool :=
   if negb (cf_dr (cfg s)) && cf_dr c then
     let '(s1, ok) := switch (set_cfg s c) SyncRecover f 0 in
@@ -201,15 +211,31 @@ Inductive op :=
 | OConfig (c : config) (f : fault)
 | OLayout (l : list region)                  (* the region cache is replaced by this layout (ascending, non-overlapping) *)
 | OReport (rid : Z) (sid : Z) (integ : bool) (* region rid reports a new replication status *)
-| OStore (id : Z) (down : bool).
+| OStore (id : Z) (down : bool)
+| OAdvance (dt : Z)                           (* time passes *)
+| OMember (id : Z).                           (* UpdateMemberWaitAsyncTime: PD member id confirmed the DR_STATE file now *)
 
 Definition set_regions (s : state) (l : list region) : state :=
   State (cfg s) (served s) (stored s) (files s) (next_id s) (cur_key s) (cur_cnt s) (tot s) (synced s) (dr_total s)
-        l (stores s) (bsz s) (chain s) (used s).
+        l (stores s) (bsz s) (clk s) (chain s) (used s).
 Definition set_stores (s : state) (l : list store) : state :=
   State (cfg s) (served s) (stored s) (files s) (next_id s) (cur_key s) (cur_cnt s) (tot s) (synced s) (dr_total s)
-        (regions s) l (bsz s) (chain s) (used s).
+        (regions s) l (bsz s) (clk s) (chain s) (used s).
 
+Definition set_clk (s : state) (k : clock) : state :=
+  State (cfg s) (served s) (stored s) (files s) (next_id s) (cur_key s) (cur_cnt s) (tot s) (synced s) (dr_total s)
+        (regions s) (stores s) (bsz s) k (chain s) (used s).
+Fixpoint member_set (l : list (Z * Z)) (id t : Z) : list (Z * Z) :=
+  match l with
+  | [] => [(id, t)]
+  | (i, x) :: r => if i =? id then (id, t) :: r else (i, x) :: member_set r id t
+  end.
+Definition clock_step (k : clock) (o : op) : clock :=
+  match o with
+  | OAdvance dt => Clock (c_now k + dt) (c_init k) (c_members k)
+  | OMember id => Clock (c_now k) (c_init k) (member_set (c_members k) id (c_now k))
+  | _ => k
+  end.
 Inductive res := ROk | RErr.
 Definition run_cmd (s : state) (o : op) : state * res :=
   match o with
@@ -220,6 +246,7 @@ Definition run_cmd (s : state) (o : op) : state * res :=
       (set_regions s (map (fun r => if r_id r =? rid then Region (r_id r) (r_start r) (r_end r) sid integ else r) (regions s)), ROk)
   | OStore id down =>
       (set_stores s (map (fun x => if s_id x =? id then Store (s_id x) (s_key x) (s_dc x) down (s_tomb x) else x) (stores s)), ROk)
+  | OAdvance _ | OMember _ => (set_clk s (clock_step (clk s) o), ROk)
   end.
 
 (* ---------- observations ---------- *)
@@ -243,10 +270,10 @@ Definition run_op (s : state) (o : op) : state * obs :=
 (* boot = NewReplicationModeManager: in dr-auto-sync mode the stored status is loaded, or, when there is
    none, the manager starts in `sync` (loadDRAutoSync -> drSwitchToSync) *)
 Definition boot (c : config) (st : option status) (id0 : Z) (rs : list region) (ss : list store) (b : nat) : state :=
-  let s0 := State c None st [] id0 "" 0 0 0 0 rs ss b [] (match st with Some x => [st_id x] | None => [] end) in
+  let s0 := State c None st [] id0 "" 0 0 0 0 rs ss b (Clock 0 0 []) [] (match st with Some x => [st_id x] | None => [] end) in
   if cf_dr c then
     match st with
-    | Some x => State c (Some x) st [] id0 "" 0 0 0 0 rs ss b [] [st_id x]
+    | Some x => State c (Some x) st [] id0 "" 0 0 0 0 rs ss b (Clock 0 0 []) [] [st_id x]
     | None => fst (switch s0 Sync no_fault 0)
     end
   else s0.
@@ -302,7 +329,8 @@ Record mon := Mon {
   m_cfg : config; m_stores : list store; m_regions : list region;
   m_gid : Z;                 (* the state id the good set below belongs to *)
   m_good : list region;      (* regions seen in the cache, at some tick of the recovery under m_gid, with integrity under m_gid *)
-  m_ids : list Z             (* state ids seen in served statuses or files *)
+  m_ids : list Z;            (* state ids seen in served statuses or files *)
+  m_clk : clock              (* the clock inputs, from the operations *)
 }.
 
 Definition good_now (sid : Z) (l : list region) : list region := filter (fun r => (r_sid r =? sid) && r_int r) l.
@@ -342,7 +370,7 @@ Definition mon_step (m : mon) (o : op) (prev cur : obs) : mon * list string :=
   let acc := add_ranges (if m_gid m =? scan_id then m_good m else []) (good_now scan_id (m_regions m)) in
   let v := (
     (* 1 async only when one dc lost all its replicas, a majority can be up, and the timeout passed *)
-    (if is_tick && to Async && negb (negb csync && hmaj && cf_async_ok (m_cfg m)) then ["C19:async-without-cause"] else []) ++
+    (if is_tick && to Async && negb (negb csync && hmaj && async_ok_at (m_cfg m) (m_clk m)) then ["C19:async-without-cause"] else []) ++
     (* 2 async -> sync_recover only when both dcs have fewer failed stores than replicas *)
     (if is_tick && to SyncRecover && negb csync then ["C19:recover-while-a-dc-is-down"] else []) ++
     (if is_tick && to SyncRecover && negb (from Async) then ["C19:recover-not-from-async"] else []) ++
@@ -378,7 +406,8 @@ Definition mon_step (m : mon) (o : op) (prev cur : obs) : mon * list string :=
      | _ => []
      end))%list in
   (Mon cfg' stores' regions' (if is_tick then scan_id else m_gid m) (if is_tick then acc else m_good m)
-       ((match cs with Some x => [st_id x] | None => [] end) ++ map st_id (o_files cur) ++ m_ids m)%list, v).
+       ((match cs with Some x => [st_id x] | None => [] end) ++ map st_id (o_files cur) ++ m_ids m)%list
+       (clock_step (m_clk m) o), v).
 
 Fixpoint mon_run (m : mon) (ops : list op) (prev : obs) (obs_l : list obs) : list string :=
   match ops, obs_l with
@@ -391,7 +420,7 @@ Definition monitor (c : case) : list string :=
   | b0 :: br =>
       (* the ids of the boot observation are spent; an id both served and in a file of the SAME step is one id *)
       let ids0 := (match o_stored b0 with Some x => [st_id x] | None => [] end) in
-      nodup string_dec (mon_run (Mon (b_cfg b) (b_stores b) (b_regions b) 0 [] ids0) ops b0 br)
+      nodup string_dec (mon_run (Mon (b_cfg b) (b_stores b) (b_regions b) 0 [] ids0 (Clock 0 0 [])) ops b0 br)
   | [] => ["C19:empty-trace"]
   end.
 Fixpoint monitor_fails_from (n : nat) (cs : list case) : list (nat * string) :=
